@@ -43,7 +43,7 @@ def make_case(seed, t, nmax, precs="sd", drivers=("gssv",), force=None):
         "perturb": f.get("perturb", rng.choice([0, 0, 1, 3])),
         "evlog": f.get("evlog", 0),
         "fill": f.get("fill"),
-        "fact": f.get("fact", 0), "trans": f.get("trans", 0), "symm": f.get("symm", 0), "lwork": rng.choice(list(f["lwork"])) if isinstance(f.get("lwork"), (list, tuple)) else f.get("lwork", 0),
+        "dyn": f.get("dyn", 0), "fact": f.get("fact", 0), "trans": f.get("trans", 0), "symm": f.get("symm", 0), "lwork": rng.choice(list(f["lwork"])) if isinstance(f.get("lwork"), (list, tuple)) else f.get("lwork", 0),
     }
     # tunables precondition (DESIGN §7-F8): a relaxed supernode may have up to `relax` columns, and every
     # size computed from maxsuper (work arrays, slot table) assumes relax <= maxsuper.
@@ -60,6 +60,8 @@ def script_for(cfg, M, rhs):
     s += "perturb %d %d\n" % (cfg["perturb"], cfg["t"] + 1)
     if cfg.get("evlog"):
         s += "evlog 1 1\n"
+    if cfg.get("dyn"):
+        s += "dynsnode 1\n"
     s += G.script_mat(0, M, nr=(cfg["stype"] == "NR"), single=single)
     s += G.script_rhs(0, cfg["n"], cfg["nrhs"], cfg["ld"], rhs, M.cplx, single)
     s += "permc_get 0 %d\n" % cfg["colperm"]
